@@ -3,6 +3,7 @@ import sys
 
 from sa import rules_sibling as RSB
 from sa import rules_r6b as R6B
+from sa import rules_r10 as R10
 from sa import rules_r6 as R6
 from sa import report, effects as E, rules_registry as RR
 from sa import rules_extra as RX
@@ -32,6 +33,7 @@ def run(ctx, repo):
     ctx.call(RX.r_cow_all_paths, repo)
     ctx.call(R6.r_cow_minimal, repo)
     ctx.call(R6B.r_yamlobject_registers_all, repo)
+    ctx.call(R10.r_metaclass_own_targets, repo)
     ctx.call(RSB.r_class_composition, repo)
     ctx.call(R6B.r_yamlobject_loaders, repo)
 
